@@ -285,6 +285,11 @@ pub fn corpus_items(ctx: &crate::runner::RunCtx, target: &str) -> Vec<CorpusCase
 }
 
 pub fn corpus_oracle(_ctx: &crate::runner::RunCtx, c: &CorpusCase, log: &mut crate::runner::CaseLog) -> Result<(), String> {
+    // the `verify` target interprets its bytes over a pool of honest proofs; if that pool cannot be made (the prover refuses a
+    // valid witness: C01's subject) there is nothing to replay
+    if c.target != "decode" && std::panic::catch_unwind(|| pool().len()).is_err() {
+        return Err(format!("{} the pool of honest proofs of the `verify` target cannot be built (C01's subject)", crate::runner::SKIP));
+    }
     let r = match c.target.as_str() {
         "decode" if c.panic_only => guarded(|| check_string::<R>(&c.bytes)).map(|_| ()),
         "decode" => decode_target(&c.bytes),
